@@ -44,6 +44,27 @@ Theorem C16_latch_check_then_act_refuted :
 Proof. exact latch_check_then_act_refuted. Qed.
 Print Assumptions C16_latch_check_then_act_refuted.
 
+(* Close / Stop never waits on itself (Model section O: the clean handlers run under the non-re-entrant Dispose lock and, in
+   the repository, none of them takes that lock again): ANY number of closers, ANY schedule: whenever the lock is held its
+   holder's next step is enabled. *)
+Theorem C16_lock_holder_never_blocked :
+  forall (k : nat) (sched : list nat),
+  let s := run _ _ (ostep false) (oinit, repeat OLock k) sched in
+  o_lock (fst s) = true ->
+  exists i t, nth_error (snd s) i = Some t /\ (t = ORun \/ t = OUnlock) /\ fst (ostep false t (fst s)) <> t.
+Proof. intros k sched. exact (lock_holder_never_blocked k sched). Qed.
+Print Assumptions C16_lock_holder_never_blocked.
+
+(* a clean handler that reaches a call taking the Dispose lock of its own component (the OnClosed closure of the mapping
+   handler's tunnels calling h.IsClosed() while Stop() runs the clean-up handler): the closer waits for itself forever and
+   the handler never ran *)
+Theorem C16_reentrant_handler_refuted :
+  exists pre,
+    let s := run _ _ (ostep true) (oinit, [OLock; OLock]) pre in
+    snd s = [ORun; OLock] /\ o_ran (fst s) = 0 /\ (forall sched, run _ _ (ostep true) s sched = s).
+Proof. exact reentrant_handler_refuted. Qed.
+Print Assumptions C16_reentrant_handler_refuted.
+
 (* (2) callback_once — client Tunnel.Close (repaired: CAS loop), from Connecting or Connected, any closers with any
    reasons, any concurrent Start calls.  The actions performed (Dispose.Close, both connection closes, peer notification,
    unregister, onClosed) are an initial segment of ONE run of the close body; Closed means one whole body has run; when
@@ -69,6 +90,26 @@ Theorem C16_callback_counts :
   (t_state (fst s) = 3 -> forall a, a <> ANotify -> tcount a (t_trace (fst s)) = 1).
 Proof. intros st0 ts sched H1 H2. exact (tunnel_actions_counted st0 ts sched H1 H2). Qed.
 Print Assumptions C16_callback_counts.
+
+(* unregister (Tunnel.Close ends with manager.UnregisterTunnel(id): deletion BY ID) against registrations under the same id
+   (Model section N, repository: RegisterTunnel is refused while ANY entry exists under the id): the closer of tunnel 0 and
+   ANY number of registrations, ANY schedule: every tunnel whose registration succeeded is the manager's current entry, so
+   manager.Close() reaches it — the old tunnel's unregister never removes somebody else's entry. *)
+Theorem C16_registered_tunnels_stay_visible :
+  forall (regs : list nat) (sched : list nat),
+  let s := run _ _ (nstep false) (ninit, NMark :: map NReg regs) sched in
+  forall b, In b (n_regok (fst s)) -> n_entry (fst s) = Some b.
+Proof. intros regs sched. exact (registered_tunnels_stay_visible regs sched). Qed.
+Print Assumptions C16_registered_tunnels_stay_visible.
+
+(* the entry of a Closing tunnel may be replaced: B registers while A is between its state CAS and UnregisterTunnel(id);
+   A's unregister-by-id then deletes B's entry: B is registered successfully, runs, and is invisible to manager.Close() *)
+Theorem C16_replace_closing_entry_refuted :
+  exists sched,
+    let s := run _ _ (nstep true) (ninit, [NMark; NReg 7]) sched in
+    snd s = [NDone; NRegRet true] /\ n_regok (fst s) = [7] /\ n_entry (fst s) = None.
+Proof. exact replace_closing_entry_refuted. Qed.
+Print Assumptions C16_replace_closing_entry_refuted.
 
 (* the pinned Tunnel.Close: two closers both pass the state load; the CAS loser falls into Store(Closing) and runs the
    body too: onClosed, unregister and the peer notification happen twice *)
